@@ -34,4 +34,7 @@ theorem holds_mux_dial_can_always_begin (r : GrpcMux.Role) (s : GrpcMux.State) (
     (GrpcMux.step Facts.grpcMux s (.dialBegin id)).isSome ∧ s.tok = none ∧ s.waitCount = 0 :=
   Props.C08.dial_can_always_begin _ (by decide) r s h hi hq id
 
+theorem holds_gone_peer_dial_returns (callerBlocks : Bool) : GrpcBroker.gonePeerDialReturns Facts.grpcDial callerBlocks = true :=
+  Props.C09.gone_peer_dial_returns _ (by decide) callerBlocks
+
 end GoPlugin.Instance.C09
